@@ -1262,6 +1262,9 @@ func sliceGuarded(f *ssa.Function, x *ssa.Slice) (bool, string) {
 				return true, "upper bound is the byte count of an io read (contract 0 <= n <= len(p)) and is tested against the array length on every path"
 			}
 		}
+		if call, ok := ex.Tuple.(*ssa.Call); ok && (core.IsCallTo(call, "io", "ReadFull") || core.IsCallTo(call, "io", "ReadAtLeast")) {
+			return true, "upper bound is the byte count of io.ReadFull (0 <= n <= len(buf)) and is tested against the array length on every path"
+		}
 	}
 	return false, "upper bound origin is not an io read count"
 }
